@@ -28,6 +28,11 @@ class State:
         self.installed = False
         self.enabled = True
         self.keep_history = True
+        # second reference per list that IGNORES what an in-place conversion (to_native(copy=False)) did to the
+        # list: the meaning of the increments alone.  Armed inside real meson runs only (install_shadow): there a
+        # command line is assembled by several consumers of one list and "the result equals the simple eager
+        # meaning" whatever reads happened in between.
+        self.track_pure = False
         self.rec: T.Optional[T.Callable[[dict], None]] = None
         self.reset()
 
@@ -48,7 +53,7 @@ _GNU_LINKERS: T.Tuple[type, ...] = ()
 
 
 class Shadow:
-    __slots__ = ('ref', 'cons', 'dirty', 'owner', 'hist', 'cls')
+    __slots__ = ('ref', 'cons', 'dirty', 'owner', 'hist', 'cls', 'pure', 'converted')
 
     def __init__(self, table: refargs.Table, initial: T.Iterable[str], owner: int, cls: str,
                  hist: T.Optional[T.List[T.Any]] = None) -> None:
@@ -58,6 +63,10 @@ class Shadow:
         self.owner = owner
         self.cls = cls
         self.hist: T.List[T.Any] = hist if hist is not None else []
+        # eager meaning of the increments alone (None: not tracked / given up); converted: an in-place conversion
+        # has changed the list itself since
+        self.pure: T.Optional[refargs.RefArgs] = refargs.RefArgs(table, self.ref.items) if STATE.track_pure else None
+        self.converted = False
 
     def log(self, *ev: T.Any) -> None:
         if STATE.keep_history and len(self.hist) < HIST_CAP:
@@ -76,6 +85,8 @@ class Shadow:
         s.owner = owner
         s.cls = self.cls
         s.hist = list(self.hist)
+        s.pure = self.pure.copy() if self.pure is not None else None
+        s.converted = self.converted
         return s
 
 
@@ -197,6 +208,39 @@ def _materialise(args: T.Any) -> T.Tuple[T.Optional[T.List[str]], T.Any]:
     return lst, lst
 
 
+def _pure_batch(args: T.Any, batch: T.Optional[T.List[str]]) -> T.Optional[T.List[str]]:
+    """What the increments-only reference is fed when `args` is added: for another argument list its own
+    increments-only meaning (None: unknown, tracking is given up)."""
+    if batch is not None and _BASE_CLS is not None and isinstance(args, _BASE_CLS):
+        osh = args.__dict__.get('_vf_shadow')
+        if osh:
+            if osh.pure is not None:
+                return list(osh.pure.items)
+            if osh.converted:
+                return None
+    return batch
+
+
+def _pure_apply(sh: Shadow, fn: T.Callable[[refargs.RefArgs], None]) -> None:
+    if sh.pure is None:
+        return
+    try:
+        fn(sh.pure)
+    except Exception:
+        sh.pure = None
+        STATE.count('pure:given-up')
+
+
+def _pure_resync(sh: Shadow, observed: T.Sequence[str]) -> None:
+    """After a reported difference the references follow the real list."""
+    if sh.pure is not None:
+        if sh.converted:
+            sh.pure = None
+            STATE.count('pure:given-up')
+        else:
+            sh.pure.items = list(observed)
+
+
 def _call(fn: T.Any, *a: T.Any, **k: T.Any) -> T.Tuple[T.Any, T.Optional[BaseException]]:
     STATE.depth += 1
     try:
@@ -225,6 +269,7 @@ def _compare_full(sh: Shadow, op: str, observed: T.List[str]) -> None:
     if bad:
         sh.ref.items = list(observed)
         sh.cons.reset(observed)
+        _pure_resync(sh, observed)
         sh.log('resync-after-violation')
 
 
@@ -251,6 +296,14 @@ def _mk_init(orig: T.Any) -> T.Any:
             else:
                 sh = Shadow(table, initial or [], id(self), type(self).__name__)
                 sh.log('init', list(initial or []))
+                if sh.pure is not None and iterable is not None:
+                    pb = _pure_batch(iterable, initial)
+                    if pb is None:
+                        sh.pure = None
+                    else:
+                        sh.pure.items = list(pb)
+                    osh = iterable.__dict__.get('_vf_shadow') if (_BASE_CLS is not None and isinstance(iterable, _BASE_CLS)) else None
+                    sh.converted = bool(osh and osh.converted)
                 self.__dict__['_vf_shadow'] = sh
                 STATE.count('op:__init__')
         except Exception as e:
@@ -286,6 +339,12 @@ def _mk_batch(orig: T.Any, name: str, single: bool) -> T.Any:
                 sh.ref.add_batch(batch)
                 sh.cons.added(batch)
                 sh.dirty = True
+                if sh.pure is not None:
+                    pb = batch if single else _pure_batch(args, batch)
+                    if pb is None:
+                        sh.pure = None
+                    else:
+                        _pure_apply(sh, lambda r: r.add_batch(pb))
                 STATE.count('op:' + name)
             except Exception as e:
                 _monitor_error(name, e)
@@ -316,6 +375,16 @@ def _mk_direct(orig: T.Any, name: str) -> T.Any:
             try:
                 sh.log(name, *[repr(x) if isinstance(x, slice) else (list(x) if isinstance(x, (list, tuple)) else x) for x in a])
                 mexc: T.Optional[BaseException] = None
+                if sh.pure is not None:
+                    if sh.converted:
+                        sh.pure = None        # positions in the converted list say nothing about the increments
+                        STATE.count('pure:given-up')
+                    elif name == 'insert':
+                        _pure_apply(sh, lambda r: r.insert(a[0], a[1]))
+                    elif name == '__setitem__':
+                        _pure_apply(sh, lambda r: r.setitem(a[0], list(slice_val) if isinstance(a[0], slice) else a[1]))
+                    else:
+                        _pure_apply(sh, lambda r: r.delitem(a[0]))
                 try:
                     if name == 'insert':
                         sh.ref.insert(a[0], a[1])
@@ -331,12 +400,14 @@ def _mk_direct(orig: T.Any, name: str) -> T.Any:
                     _violate(f'{name}-outcome-differs-from-eager', sh, name,
                              repr(exc), repr(mexc))
                     sh.ref.items = _real_list(self)
+                    _pure_resync(sh, sh.ref.items)
                 else:
                     observed = _real_list(self)
                     if observed != sh.ref.items:
                         _violate(f'{name}-differs-from-eager:' + classify_list_diff(sh.ref.t, observed, sh.ref.items),
                                  sh, name, observed, list(sh.ref.items))
                         sh.ref.items = list(observed)
+                        _pure_resync(sh, observed)
                     STATE.count('compare:after-direct-op')
                 sh.cons.reset(sh.ref.items)
             except Exception as e:
@@ -371,6 +442,14 @@ def _mk_append_direct(orig: T.Any, name: str) -> T.Any:
         if sh is not None and batch is not None:
             try:
                 sh.log(name, list(batch))
+                if sh.pure is not None:
+                    pb = batch if name == 'append_direct' else _pure_batch(args, batch)
+                    if pb is None:
+                        sh.pure = None
+                    elif name == 'extend_preserving_lflags':
+                        _pure_apply(sh, lambda r: r.extend_preserving_lflags(pb))
+                    else:
+                        _pure_apply(sh, lambda r: r.extend_direct(pb))
                 if name == 'extend_preserving_lflags':
                     sh.ref.extend_preserving_lflags(batch)
                     sh.dirty = False
@@ -461,6 +540,12 @@ def _mk_add(orig: T.Any, name: str) -> T.Any:
                         nsh.cons = refargs.Conservation(sh.ref.t, batch)
                         nsh.cons.added(sh.ref.items)
                     nsh.dirty = True
+                    nsh.converted = sh.converted
+                    pb = _pure_batch(args, batch)
+                    if sh.pure is not None and pb is not None:
+                        nsh.pure = sh.pure.added(pb) if name == '__add__' else sh.pure.radded(pb)
+                    else:
+                        nsh.pure = None
                     _attach(res, nsh)
             except Exception as e:
                 _monitor_error(name, e)
@@ -626,6 +711,7 @@ def _mk_to_native(orig: T.Any, clike: bool) -> T.Any:
             return orig(self, copy)
         sh = None
         exp_pre: T.Optional[T.List[str]] = None
+        pure_pre: T.Optional[T.List[str]] = None
         try:
             sh = shadow_of(self)
             if sh is not None:
@@ -633,8 +719,12 @@ def _mk_to_native(orig: T.Any, clike: bool) -> T.Any:
                     dirs, dexc = _call(self.compiler.get_default_include_dirs)
                     if dexc is None:
                         exp_pre = sh.ref.native_form(_gnu_group(self.compiler), list(dirs or []))
+                        if sh.pure is not None:
+                            pure_pre = sh.pure.native_form(_gnu_group(self.compiler), list(dirs or []))
                 else:
                     exp_pre = list(sh.ref.items)
+                    if sh.pure is not None:
+                        pure_pre = list(sh.pure.items)
         except Exception as e:
             _monitor_error('to_native', e)
             sh = None
@@ -660,9 +750,27 @@ def _mk_to_native(orig: T.Any, clike: bool) -> T.Any:
                 if any(res is v for v in self.__dict__.values()):
                     _violate('to_native-hands-out-the-lists-own-storage', sh, f'to_native(copy={bool(copy)})',
                              'the returned list IS an attribute of the argument list', 'an independent list')
+                if pure_pre is not None:
+                    # a command line is the eager meaning of the INCREMENTS, whichever consumers read or converted
+                    # the list while it was being assembled
+                    STATE.count('contract:command-line-is-meaning-of-increments')
+                    if sh.converted:
+                        STATE.count('contract:command-line-is-meaning-of-increments:after-in-place-conversion')
+                    pexp, pexc = _call(self.compiler.unix_args_to_native, list(pure_pre))
+                    if pexc is None and list(res) != list(pexp) and (texc is not None or list(res) == list(exp)):
+                        # (a difference from the list-level reference was reported above already)
+                        marks = ('-Wl,--start-group', '-Wl,--end-group')
+                        only_marks = [a for a in res if a not in marks] == [a for a in pexp if a not in marks]
+                        _violate('command-line-changed-by-earlier-in-place-conversion:' +
+                                 ('library-group-markers' if only_marks else classify_list_diff(sh.ref.t, list(res), list(pexp))),
+                                 sh, f'to_native(copy={bool(copy)})', list(res), list(pexp),
+                                 {'increments_only_list': list(sh.pure.items) if sh.pure is not None else None})
                 if clike and not copy:
                     # documented by the parameter: without copy the list itself receives the group
                     # markers / loses the default -isystem entries
+                    if list(exp_pre) != list(sh.ref.items):
+                        sh.converted = True
+                        STATE.count('read:to_native:in-place-conversion-changed-the-list')
                     sh.ref.items = list(exp_pre)
                     sh.cons.reset(exp_pre)
             except Exception as e:
@@ -837,6 +945,7 @@ def install_shadow(rec: T.Callable[[dict], None]) -> None:
     STATE.depth = 0
     STATE.enabled = True
     STATE.keep_history = True
+    STATE.track_pure = True
     STATE.rec = rec
     from vf import runner
 
